@@ -32,6 +32,9 @@ CHECKS = {
  "C02": dict(design="5/C02", technique="TLA+ Streamer spec (hardware address generator) and Schedule+Layout spec run in lock step by TLC on the stride patterns emitted by the real scheduling/layout-resolution/stream-lowering passes",
    text="Generated dart.operations (snax_alu, snax_gemmx matmul) with layouts none / strided+offset / transposed / given 2- and 3-level TSL (with offsets) / compiler-chosen are pushed through the real dart-scheduler, (set-memory-layout), dart-layout-resolution, convert-dart-to-snax-stream. For every operand TLC compares, for every temporal step, the byte set the streamer touches (odometer over ub/ts, ports over ss, 8-byte words, base pointer offset read from the IR) with the byte set of the elements the schedule assigns to that step under the operand's layout (StepCount, StepBytes). Disabled parked streams and zero-pointer streams are not operands and are skipped; declared refusals are counted.",
    note="Matmul sizes 8..32, boxes <= 36 tiles; streams synthesised for streamers without an operand are only required to be disabled or fed from the zero pointer."),
+ "C08": dict(design="5/C08", technique="TLA+ CsrLayout spec derives the expected register file from field-name meaning; the ops emitted by the real convert_to_acc_ops are executed on IRMachine by TLC and compared field by field",
+   text="For random and default streamer configurations (1-5 streamers, 1-6 temporal dims with n/i/r flags, 1-2 spatial dims, every option subset) on the alu-style accelerator, gemmx array sizes m/n/k with mac/qmac kernels (i32 output, zero-pointer C operand), the gemmx rescale-only kernel, snax_hwpe_mult and xDMA: the real convert_to_acc_ops output (constants, casts, and/shift/or packing) is run on IRMachine; the values feeding accfg.setup must be exactly one per declared field, in declared order, equal to CsrLayout.tla's expectation built from the names (pointers, padded bounds/strides with Reuse collapse, masks, transpose/broadcast flags, subtractions word, K*N*M = stream steps).",
+   note="Stride patterns use distinct prime markers; 32-bit words beyond 2^30 (packed csr0/shift words with the top byte set) are uninterpreted on the machine and only checked for presence; known finding: hwpe_mult field names."),
 }
 NA_REASON = "check not built yet in this round (planned: see DESIGN.md section 5); will be claimed once its TLA+ module and binding exist"
 def main():
